@@ -80,6 +80,68 @@ func MatchSpec(rs []DomRule, s string) bool {
 	return inc
 }
 
+// ---- --direct-domains as the rule list it is (C17.Rule) ----
+
+// DirectValues are the values of --direct-domains as written on the command line (a leading '-' marks an
+// exclude rule): DirectRaw when the case gives real rule texts, else the rendering of the shaped rules.
+func (rc *RouteCfg) DirectValues() []string {
+	if rc.DirectRaw != nil {
+		return rc.DirectRaw
+	}
+	var out []string
+	for _, d := range rc.Direct {
+		out = append(out, d.Regexp())
+	}
+	return out
+}
+
+// RawRulesToken renders flag values as C17's rule list: `+<hex>` include, `-<hex>` exclude.
+func RawRulesToken(vals []string) string {
+	var as []string
+	for _, v := range vals {
+		if strings.HasPrefix(v, "-") {
+			as = append(as, "-"+core.HexS(v[1:]))
+		} else {
+			as = append(as, "+"+core.HexS(v))
+		}
+	}
+	return core.JoinList(as)
+}
+
+// RawMatcher builds the real ruleset matcher from flag values, the way the flag is read.
+func RawMatcher(vals []string) (*ruleset.RegexpMatcher, error) {
+	var items []ruleset.RegexpListItem
+	for _, v := range vals {
+		it, err := ruleset.ParseRegexpListItem(v)
+		if err != nil {
+			return nil, err
+		}
+		items = append(items, it)
+	}
+	return ruleset.NewRegexpMatcherFromList(items)
+}
+
+// MatchSpecRaw evaluates flag values by the documented meaning of a rule list, independently of the code
+// under test: ONE regexp per rule, some include rule matches on its own and no exclude rule does.
+func MatchSpecRaw(vals []string, s string) (bool, error) {
+	inc, exc := false, false
+	for _, v := range vals {
+		src, excl := strings.CutPrefix(v, "-")
+		re, err := regexp.Compile(src)
+		if err != nil {
+			return false, err
+		}
+		if re.MatchString(s) {
+			if excl {
+				exc = true
+			} else {
+				inc = true
+			}
+		}
+	}
+	return inc && !exc, nil
+}
+
 func DomRulesToken(rs []DomRule) string {
 	var es []string
 	for _, r := range rs {
@@ -416,6 +478,7 @@ type RouteCfg struct {
 	CustomDefault   *ProxyURL      `json:"custom_default,omitempty"`
 	DirectSet       bool           `json:"direct_set,omitempty"`
 	Direct          []DomRule      `json:"direct,omitempty"`
+	DirectRaw       []string       `json:"direct_raw,omitempty"` // real rule texts ('-' prefix = exclude); wins over Direct
 	LocalhostDirect bool           `json:"localhost_direct,omitempty"`
 	ConnectTo       []HostPortPair `json:"connect_to,omitempty"`
 }
@@ -465,7 +528,7 @@ func RouteTokens(rc *RouteCfg, localNames []string) []string {
 		t = append(t, "base=none")
 	}
 	if rc.DirectSet {
-		t = append(t, "direct="+DomRulesToken(rc.Direct))
+		t = append(t, "direct="+RawRulesToken(rc.DirectValues()))
 	}
 	var ct []string
 	for _, p := range rc.ConnectTo {
@@ -695,7 +758,7 @@ func ProxyOpts(fc *FullCfg, frames []TimeFrame, extraConnectTo []forwarder.HostP
 		}
 	}
 	if fc.Route.DirectSet {
-		if direct, err = Matcher(fc.Route.Direct); err != nil {
+		if direct, err = RawMatcher(fc.Route.DirectValues()); err != nil {
 			return rig.ProxyOpts{}, fmt.Errorf("direct domains: %w", err)
 		}
 	}
